@@ -239,7 +239,7 @@ def t3u(ctx):
             key = key_of("C07-T3u", b.path, "loop")
             if not ok and name == "optimistic_dealloc":
                 conds = [res.conds[x] for x in b.natural_loop((u, h)) if x in res.conds]
-                guard = [c for c in conds if tag(c) == "cmp" and c[1] == "Eq" and any("try_new_segment" in show(x) for x in (c[2], c[3]))]
+                guard = [c for c in conds if tag(c) == "cmp" and c[1] in ("Eq", "Ne") and any("try_new_segment" in show(x) for x in (c[2], c[3]))]
                 yield Ob(key + ":%d" % n, bool(guard), "token-free cycle only through the contract-only `found ourselves` guard", b.loc(h))
                 continue
             yield Ob(key + ":%d" % n, ok, "loop head bb%d: %s (tokens: %s)" % (h, "progress token on every path" if ok else "NO progress token on some path", toks), b.loc(h))
